@@ -39,9 +39,18 @@ type c12Verdict struct {
 
 // c12Check parses the tables (each an AML body without header) into one tree
 // and checks the post-conditions. It runs inside the worker.
-func c12Check(tables [][]byte) (v c12Verdict) {
+//
+// mode 0: a new Parser per table, stop at the first rejected table; mode 1: one Parser for all
+// tables (as the package's own multi-table test loads DSDT then SSDT), stop at the first rejected
+// table; mode 2: one Parser for all tables, and the tables after a rejected one are presented as
+// well - each of them is still "a byte sequence presented as an AML table".
+func c12Check(tables [][]byte, mode int) (v c12Verdict) {
 	tree := NewObjectTree()
 	tree.CreateDefaultScopes(42)
+	var shared *Parser
+	if mode != 0 {
+		shared = NewParser(io.Discard, tree)
+	}
 	var bufs [][]byte
 	defer func() {
 		if r := recover(); r != nil {
@@ -57,13 +66,19 @@ func c12Check(tables [][]byte) (v c12Verdict) {
 		}
 		buf, hdr := amlTable(sig, body)
 		bufs = append(bufs, buf)
-		err := NewParser(io.Discard, tree).ParseAML(uint8(i+1), sig, hdr)
+		p := shared
+		if p == nil {
+			p = NewParser(io.Discard, tree)
+		}
+		err := p.ParseAML(uint8(i+1), sig, hdr)
 		if err != nil {
 			if err != errParsingAML {
 				return c12Verdict{Outcome: "other-error", Detail: err.Message}
 			}
 			rejected = true
-			break
+			if mode != 2 {
+				break
+			}
 		}
 	}
 	v.Objects = len(tree.objPool)
@@ -246,6 +261,8 @@ func TestVerifC12Worker(t *testing.T) {
 		if err := binary.Read(in, binary.LittleEndian, &nt); err != nil {
 			return
 		}
+		mode := int(nt >> 24)
+		nt &= 1<<24 - 1
 		tables := make([][]byte, nt)
 		for i := range tables {
 			var l uint32
@@ -257,7 +274,7 @@ func TestVerifC12Worker(t *testing.T) {
 				return
 			}
 		}
-		v := c12Check(tables)
+		v := c12Check(tables, mode)
 		b, _ := json.Marshal(v)
 		out.WriteString("VERDICT ")
 		out.Write(b)
@@ -317,7 +334,7 @@ func (w *c12Worker) kill() {
 
 // c12Ask runs the tables in the worker. A dead worker yields outcome "crash",
 // a worker that does not answer within the deadline "hang".
-func c12Ask(tables [][]byte) (c12Verdict, error) {
+func c12Ask(tables [][]byte, mode int) (c12Verdict, error) {
 	if c12TheWorker == nil {
 		w, err := c12Start()
 		if err != nil {
@@ -327,7 +344,7 @@ func c12Ask(tables [][]byte) (c12Verdict, error) {
 	}
 	w := c12TheWorker
 	var req bytes.Buffer
-	binary.Write(&req, binary.LittleEndian, uint32(len(tables)))
+	binary.Write(&req, binary.LittleEndian, uint32(len(tables))|uint32(mode)<<24)
 	for _, t := range tables {
 		binary.Write(&req, binary.LittleEndian, uint32(len(t)))
 		req.Write(t)
@@ -414,10 +431,11 @@ func c12ClassifyCrash(stderr string) string {
 type c12Case struct {
 	Kind   string   `json:"kind"`
 	Tables [][]byte `json:"tables"`
+	Mode   int      `json:"mode,omitempty"` // see c12Check
 }
 
 func c12Judge(c c12Case) (*vlib.Failure, c12Verdict) {
-	v, err := c12Ask(c.Tables)
+	v, err := c12Ask(c.Tables, c.Mode)
 	if err != nil {
 		return vlib.Failf("VERIF-HARNESS worker protocol error: %v", err), v
 	}
@@ -425,7 +443,7 @@ func c12Judge(c c12Case) (*vlib.Failure, c12Verdict) {
 		// confirm twice in fresh workers before calling it non-termination (once per process:
 		// while rapid shrinks a confirmed hang, one deadline per attempt is enough)
 		for i := 0; i < 2; i++ {
-			v2, err := c12Ask(c.Tables)
+			v2, err := c12Ask(c.Tables, c.Mode)
 			if err != nil || v2.Outcome != "hang" {
 				return nil, c12Verdict{Outcome: "inconclusive-slow"}
 			}
@@ -780,6 +798,21 @@ func TestVerifC12(t *testing.T) {
 			}
 			m, kinds := c12Mutate(t, amlEncodeObjs(prog.Tables[victim]), donor)
 			c.Tables = append(c.Tables, m)
+			c.Mode = rapid.SampledFrom([]int{0, 0, 1, 2, 2}).Draw(t, "parsermode")
+			if c.Mode == 2 {
+				// the program's remaining tables follow the damaged one; a one-table program is
+				// presented a second time, undamaged
+				for i := victim + 1; i < len(prog.Tables); i++ {
+					c.Tables = append(c.Tables, amlEncodeObjs(prog.Tables[i]))
+				}
+				if len(prog.Tables) == 1 {
+					c.Tables = append(c.Tables, donor)
+				}
+				labels = append(labels, "tables-follow-the-damaged-one")
+			}
+			if c.Mode != 0 {
+				labels = append(labels, "one-parser-for-all-tables")
+			}
 			for _, k := range kinds {
 				labels = append(labels, "mutation-"+k)
 			}
@@ -835,7 +868,7 @@ func FuzzVerifC12(f *testing.F) {
 			return
 		}
 		debug.SetMaxStack(64 << 20)
-		v := c12Check([][]byte{data})
+		v := c12Check([][]byte{data}, 0)
 		if v.Outcome != "ok" && v.Outcome != "rejected" {
 			t.Fatalf("%s: %s", v.Outcome, v.Detail)
 		}
